@@ -281,10 +281,10 @@ var targets = []Target{
 		Stmt: "response.setSpanErrorDetails(err)", After: true, Rest: "",
 		Hints: map[string]string{"sendErr": "(1 + shut_down)"},
 		SHints: map[string]string{
-			"span := CurrentSpan(response.mex.ctx)":                                         "",
-			"sendErr := response.conn.SendSystemError(response.mex.msgID, *span, err)":     "let error_queued := 0 in",
-			"response.doneSending()":                                                        "let shut_down := error_queued in",
-			"response.call.releasePreviousFragment()":                                       "",
+			"span := CurrentSpan(response.mex.ctx)":                                    "",
+			"sendErr := response.conn.SendSystemError(response.mex.msgID, *span, err)": "let error_queued := 0 in",
+			"response.doneSending()":                                                   "let shut_down := error_queued in",
+			"response.call.releasePreviousFragment()":                                  "",
 		}},
 	// (2) connection.go handlePingReq: which states refuse a ping (1 = the ping res is sent,
 	// 0 = protocolError).
@@ -303,23 +303,23 @@ var targets = []Target{
 		Params: "(ok : bool) (isOriginator : bool) (pending : Z)", Ret: "Z",
 		Stmt: "item, ok := items.Entomb(id, _relayTombTTL)", After: true, Rest: "pending", NakedRet: "pending",
 		SHints: map[string]string{
-			"verifPoint(...":                                      "",
+			"verifPoint(...": "",
 			"r.conn.SendSystemError(id, item.span, ErrTimeout)": "",
 			"item.call.Failed(\"timeout\")":                     "",
-			"item.call.End()":                                     "",
-			"r.decrementPending()":                                "let pending := pending - 1 in",
+			"item.call.End()":                                   "",
+			"r.decrementPending()":                              "let pending := pending - 1 in",
 		}},
 	{Func: "Relayer.failRelayItem", Out: "relayFailPending", File: "GenClose2", Soft: true,
 		Params: "(found : bool) (stopped : bool) (ok : bool) (isOriginator : bool) (slow : bool) (pending : Z)", Ret: "Z",
 		Stmt: "item, stopped, found := items.Get(id, true", After: true, Rest: "pending", NakedRet: "pending",
 		Hints: map[string]string{"item.isOriginator": "isOriginator", "reason != _relayErrorSourceConnSlow": "(negb slow)"},
 		SHints: map[string]string{
-			"items.logger.WithFields(...":                          "",
-			"item, ok := items.Entomb(id, _relayTombTTL)":         "",
-			"r.conn.SendSystemError(...":                           "",
-			"item.call.Failed(reason)":                             "",
-			"item.call.End()":                                      "",
-			"r.decrementPending()":                                 "let pending := pending - 1 in",
+			"items.logger.WithFields(...":                 "",
+			"item, ok := items.Entomb(id, _relayTombTTL)": "",
+			"r.conn.SendSystemError(...":                  "",
+			"item.call.Failed(reason)":                    "",
+			"item.call.End()":                             "",
+			"r.decrementPending()":                        "let pending := pending - 1 in",
 		}},
 	{Func: "Relayer.finishRelayItem", Out: "relayFinishPending", File: "GenClose2", Soft: true,
 		Params: "(ok : bool) (isOriginator : bool) (pending : Z)", Ret: "Z",
